@@ -77,10 +77,16 @@ def config_dict(prob, spec=False, split=False):
         opt["options"] = o["dict"] if "dict" in o else o["list"]
     if prob.get("output_dir"):
         opt["output_dir"] = prob["output_dir"]
+    real = {"weights": R_WEIGHTS}
+    grad = {"number_of_perturbations": N_PERT, "perturbation_magnitudes": MAGNITUDE,
+            "boundary_types": 1}                   # BoundaryType.NONE: perturbations are never reflected
+    if prob.get("min_success") is not None:
+        real["realization_min_success"] = prob["min_success"]
+    if prob.get("pert_min_success") is not None:
+        grad["perturbation_min_success"] = prob["pert_min_success"]
     d = {"variables": v,
-         "realizations": {"weights": R_WEIGHTS},
-         "gradient": {"number_of_perturbations": N_PERT, "perturbation_magnitudes": MAGNITUDE,
-                      "boundary_types": 1},        # BoundaryType.NONE: perturbations are never reflected
+         "realizations": real,
+         "gradient": grad,
          "samplers": [{"method": "verif/fixed"}],
          "optimizer": opt}
     if prob.get("nl") is not None:
@@ -134,6 +140,12 @@ class Env:
             r = np.asarray(context.realizations)
             pert = None if context.perturbations is None else np.asarray(context.perturbations).copy()
             obj = poly(funcs["obj"], x, r)[:, None]
+            fail = prob.get("fail")
+            if fail is not None and pert is not None:
+                # some PERTURBED runs of one realization crash near one point; its unperturbed run is fine there
+                near = np.max(np.abs(x - np.asarray(fail["center"], dtype=float)), axis=1) <= 2 * MAGNITUDE
+                bad = near & (r == fail["realization"]) & np.isin(pert, fail["perts"])
+                obj[bad, 0] = np.nan
             cons = None
             if self.n_con:
                 cons = np.stack([poly(f, x, r) for f in funcs["con"][: self.n_con]], axis=1)
@@ -162,8 +174,11 @@ class Env:
         callback would hand them over (free variables only)"""
         import numpy as np
         n = len(self.log)
-        fr, gr = self.new_evaluator().calculate(self.complete(np.asarray(xfree, dtype=float), start),
-                                                compute_functions=True, compute_gradients=True)
+        full = self.complete(np.asarray(xfree, dtype=float), start)
+        # the reference VALUES are the functions-only ensemble values (what a request for the value alone gives);
+        # the reference gradients come from a combined evaluation on another fresh evaluator
+        (fr,) = self.new_evaluator().calculate(full, compute_functions=True, compute_gradients=False)
+        _, gr = self.new_evaluator().calculate(full, compute_functions=True, compute_gradients=True)
         del self.log[n:]
         cons = [] if fr.functions.constraints is None else [float(v) for v in fr.functions.constraints]
         jac = [] if gr.gradients.constraints is None else \
@@ -338,6 +353,14 @@ def _configs(tier):
         out.append((p, kinds, B, False))
     p = _problem("differential_evolution", True, False, n_full=3, mask=MASK3, parallel=True)
     out.append((p, [["obj"], ["conall"], ["jacall"]], B, True))
+    # failures are tolerated (realization_min_success 1 of 2) and some perturbed runs of realization 1 crash near pool
+    # point 1, its unperturbed run does not: the realization drops out of the gradient there but not out of the value
+    for pms, perts in ((None, [0]), (2, [0, 2]), (2, [1])):      # default = all must succeed | 2 of 3: fails | tolerated
+        for method, nl in (("slsqp", True), ("l-bfgs-b", False)):
+            p = _problem(method, nl, False)
+            p.update({"min_success": 1, "pert_min_success": pms,
+                      "fail": {"point": 1, "realization": 1, "perts": perts, "center": None}})
+            out.append((p, dict_kinds(p, True), S, True))
     return out
 
 
@@ -399,6 +422,11 @@ def gen_cases(tier, rng):
                     seqs.append(s)
         short_seqs = [s for s in seqs if len(s) <= 2]
         pub = {k2: v for k2, v in prob.items() if not k2.startswith("_")}
+        if pub.get("fail") is not None:
+            pub["fail"] = {**pub["fail"], "center": pool[pub["fail"]["point"]]}
+            # the realizations must differ, or dropping one would not change the value
+            funcs = {"obj": {**funcs["obj"], "rshift": funcs["obj"]["rshift"] or 0.5},
+                     "con": [{**f, "rshift": f["rshift"] or -0.75} for f in funcs["con"]]}
         for spec in (False, True):
             for split in (False, True):
                 for k in range(0, len(seqs), BLOCK):
@@ -832,6 +860,8 @@ def features(case, obs):
             "one_object_started_repeatedly": bool(case.get("chain")),
             "method_spelling": "as-is" if p.get("spelling") in (None, p["method"]) else "prefixed/upper-case/default",
             "explicit_start_vector": p.get("start") is not None,
+            "failed_perturbed_runs": "none" if p.get("fail") is None else
+                                     f"perturbations {p['fail']['perts']} of one realization, perturbation_min_success={p.get('pert_min_success')}",
             "all_rows_stream": any(len(s) <= 2 and s[-1][0] in ("con", "jac") and s[-1][1] not in (0, _n_rows(p) - 1)
                                    for s in case["seqs"]),
             "sequences_in_block": 50 * ((len(case["seqs"]) + 49) // 50), "max_len": max(len(s) for s in case["seqs"]),
